@@ -56,10 +56,16 @@ EXPLAIN = {
 }
 
 
+QUIESCENT_FOR = ("C01", "C02", "C04", "C10")      # proofs that start from a quiescent state (suspend counter 0, no lock held)
+
+
 def plan(pid, tier, repo, seed):
     R = setup_engine.reflect(repo)
     if pid in API_PROPS:
         tasks = api_tasks(pid, tier, repo, seed, R)
+        if pid in QUIESCENT_FOR:
+            tasks.append(dict(kind="quiescent", repo=repo, seed=seed, classes=concrete_classes(R), props=[pid], threads=True,
+                              label=f"{pid}:quiescent:yield-points"))
         extra = EXTRA.get(pid)
         if extra:
             tasks.extend(extra(pid, tier, repo, seed, R))
@@ -232,7 +238,7 @@ def c05_tasks(pid, tier, repo, seed, R):
             continue
         kind = info["kind"]
         # (Sequence.index re-loads per element: its loop invariant is stated for the unbuffered store only)
-        meths = [m for m, sp in api.api_of(kind).items() if not sp.get("attr") and m != "index"]
+        meths = [m for m, sp in api.api_of(kind).items() if not sp.get("attr") and m not in ("index", "index3")]
         roles = (("root", None), ("nested", "dict"), ("nested", "list"))
         for role, rk in roles:
             tasks.append(dict(kind="api", repo=repo, seed=seed, cname=c, role=role, rootkind=rk, methods=meths,
